@@ -195,6 +195,7 @@ DropNearBlank   == \E p \in DOMAIN post : /\ post[p].k = "blank" /\ p > 1 /\ p <
                                            /\ NearCmt(post[p - 1]) /\ NearCmt(post[p + 1])
                                            /\ post[p - 1].id < 100 /\ post[p + 1].id < 100
                                            /\ post[p - 1].id \div 10 = post[p + 1].id \div 10
+                                           /\ post[p - 1].id \div 10 \in {req.i, req.i + 1}     \* inside the window
                                            /\ Step("drop-near-blank", Drop(post, p))
 GlueComment     == \E p \in DOMAIN post : /\ post[p].k = "cmt" /\ p > 1 /\ FarStmt(post[p - 1]) /\ post[p - 1].tr = 0
                                            /\ Step("glue-comment", Drop(Put(post, p - 1, StmtLine(post[p - 1].id, post[p].id, 0)), p))
